@@ -40,7 +40,8 @@ ASSUMPTIONS = [
 ]
 REQUIRED = {"copies": 60, "rechunker_runs": 60, "rechunk_on_load_runs": 40, "per_chunk_merges": 30,
             "metadata_checks": 100, "source_intact_checks": 100, "rows_compared": 1000, "dry_loads": 100,
-            "scheduled_rechunker_runs": 100, "scheduling_points": 10000, "multi_target_copies": 15}
+            "scheduled_rechunker_runs": 100, "scheduling_points": 10000, "multi_target_copies": 15,
+            "per_chunk_refusals": 30}
 UNIT_TIMEOUT = 1500
 COMP = ("blosc", "zstd", "lz4", "bz2")
 
@@ -266,6 +267,36 @@ def run_case(case):
                 add("not-stored", f"after merge_per_chunk_storage r1 is not stored (groups {groups})")
             else:
                 check_dest(add, spec, d1, "r1", out["r1"], cnt, f"per-chunk merge {groups}")
+        elif op["name"] == "per_chunk_window":
+            # a plugin that needs neighbours across chunk borders cannot be built chunk by chunk: the request has to
+            # be refused (for every window shape), or else the merged result has to equal the directly-made data
+            specw = dict(spec, plugins=spec["plugins"] + [{"name": "w1", "type": "window", "deps": ["ev"], "window": list(op["window"]),
+                                                            "rechunk_on_save": False}])
+            outw = oracle.whole_run(specw)
+            stw = hrun.make_context(specw, d1, cfg1)
+            nch = len(stw.get_metadata("0", "ev")["chunks"])
+            accepted = []
+            for i in range(nch):
+                try:
+                    with common.quiet():
+                        stw.make("0", "w1", chunk_number={"ev": [i]}, progress_bar=False)
+                    accepted.append(i)
+                except ValueError:
+                    cnt["per_chunk_refusals"] = cnt.get("per_chunk_refusals", 0) + 1
+                except Exception as e:  # noqa: BLE001
+                    add("exception", f"per-chunk request for an overlap-window plugin failed with {e!r} (a refusal is a ValueError)", e)
+                    return viol, cnt
+            if accepted and nch > 1:
+                try:
+                    with common.quiet():
+                        stw.merge_per_chunk_storage("0", "w1", "ev", chunk_number_group=[[i] for i in range(nch)], rechunk=False)
+                    got = load_dir(specw, d1, "w1")
+                    gotrows = np.concatenate([c_.data for c_ in got])
+                    if not oracle.rows_equal(gotrows, outw["w1"]):
+                        add("rows", f"overlap-window plugin (window {op['window']}) was built chunk by chunk {accepted}; merged rows "
+                                    f"{gotrows.tolist()} != directly made {outw['w1'].tolist()}")
+                except Exception as e:  # noqa: BLE001
+                    add("exception", f"overlap-window plugin was accepted per chunk {accepted} but merging / loading failed: {e!r}", e)
     finally:
         hrun.rm(root)
     return viol, cnt
@@ -310,6 +341,8 @@ def gen_cases(seed, lo, hi, tier):
             chosen = parts if not q else rng.sample(parts, min(2, len(parts)))
             for g in chosen:
                 ops.append({"name": "per_chunk", "groups": g, "rechunk": rng.random() < 0.5, "takes_chunk_i": rng.random() < 0.5})
+        u_ = 400  # the time unit of the layouts
+        ops.append({"name": "per_chunk_window", "window": rng.choice([(0, 3 * u_), (3 * u_, 0), (2 * u_, 2 * u_), (0, 0)])})
         for k in range(4 if q else 8):
             ops.append({"name": "rechunker", "compressor": rng.choice(COMP + (None,)), "rechunk": rng.random() < 0.5,
                         "target_rows": rng.choice([None, 1, 3, 100]), "replace": rng.random() < 0.4,
